@@ -68,3 +68,100 @@ M("C20", "benign-floor-after-load", "benign",
   [("security/tls.py", "create_server_context",
     "    context.minimum_version = ssl.TLSVersion.TLSv1_2\n\n    # Load server certificate and key\n    context.load_cert_chain(certfile, keyfile)\n",
     "    context.load_cert_chain(certfile, keyfile)\n    context.minimum_version = ssl.TLSVersion.TLSv1_2\n")])
+
+# ---------------------------------------------------------------- C07
+P = "server/protocol.py"
+DR = "GeminiServerProtocol.data_received"
+M("C07", "revert-fix-state2-latch", "breaking",
+  [(P, DR, "                self.awaiting_titan_content = False\n", "")],
+  "S1:server.protocol:GeminiServerProtocol.data_received:double-dispatch")
+M("C07", "remove-url-line-latch", "breaking",
+  [(P, DR, "                self.buffer = remaining\n                self.url_line_received = True\n", "                self.buffer = remaining\n")],
+  "S1:")
+M("C07", "size-check-on-chunk", "breaking",
+  [(P, DR, "if len(self.buffer) > MAX_REQUEST_SIZE and CRLF not in self.buffer:", "if len(data) > MAX_REQUEST_SIZE and CRLF not in self.buffer:")],
+  "S3:server.protocol:GeminiServerProtocol.data_received:chunk-use")
+M("C07", "content-slice-plus-one", "breaking",
+  [(P, DR, "self.buffer[: self.titan_request.size]", "self.buffer[: self.titan_request.size + 1]")],
+  "S2:server.protocol:GeminiServerProtocol.data_received:content-slice")
+M("C07", "content-whole-buffer", "breaking",
+  [(P, "GeminiServerProtocol._handle_titan_url", "self.buffer[: self.titan_request.size]", "self.buffer")],
+  "S2:server.protocol:GeminiServerProtocol._handle_titan_url:content-slice")
+M("C07", "read-counter", "breaking",
+  [(P, DR, "        self.buffer += data\n", "        self.buffer += data\n        self.reads = getattr(self, 'reads', 0)\n        self.reads += 1\n")],
+  "S3:server.protocol:GeminiServerProtocol.data_received:counter")
+M("C07", "drop-pending-after-handshake", "breaking",
+  [("server/tls_protocol.py", "TLSServerProtocol._initialize_inner_protocol", "        self._process_pending_after_handshake()\n", "")],
+  "S4:server.tls_protocol:TLSServerProtocol._initialize_inner_protocol:no-drain-after-handshake")
+M("C07", "pump-drops-chunk", "breaking",
+  [("server/tls_protocol.py", "TLSServerProtocol._process_application_data",
+    "                if decrypted and self.inner_protocol:\n                    self.inner_protocol.data_received(decrypted)\n",
+    "                if decrypted and self.inner_protocol and len(decrypted) < 8192:\n                    self.inner_protocol.data_received(decrypted)\n")],
+  "S4:server.tls_protocol:TLSServerProtocol._process_application_data:recv-dropped")
+M("C07", "client-chunk-dependent", "breaking",
+  [("client/protocol.py", "GeminiClientProtocol.data_received", "        if not self.header_received and CRLF in self.buffer:", "        if not self.header_received and CRLF in data:")],
+  "S3:client.protocol:GeminiClientProtocol.data_received:chunk-use")
+M("C07", "benign-buffer-concat-form", "benign",
+  [(P, DR, "        self.buffer += data\n", "        self.buffer = self.buffer + data\n")])
+M("C07", "benign-latch-before-slice", "benign",
+  [(P, DR, "                self.titan_request.content = self.buffer[: self.titan_request.size]\n                # Content is complete: leave the waiting state so that any\n                # further read cannot dispatch the upload handler again\n                self.awaiting_titan_content = False\n",
+    "                self.awaiting_titan_content = False\n                self.titan_request.content = self.buffer[: self.titan_request.size]\n")])
+
+# ---------------------------------------------------------------- C01
+SR = "GeminiServerProtocol._send_response"
+M("C01", "revert-fix-early-exit-latch", "breaking",
+  [(P, DR, "                self.url_line_received = True\n                self._send_error_response(", "                self._send_error_response("),
+   (P, DR, "        if self.response_sent:\n            return\n", ""),
+   (P, SR, "        if not self.transport or self.response_sent:", "        if not self.transport:")],
+  "W5:server.protocol:GeminiServerProtocol.data_received:write-after-close")
+M("C01", "encode-after-header-write", "breaking",
+  [(P, SR, "        self.transport.write(header)\n        if body:\n            self.transport.write(body)\n",
+    "        self.transport.write(header)\n        if body:\n            self.transport.write(response.body.encode('utf-8') if isinstance(response.body, str) else body)\n")],
+  "W2:server.protocol:GeminiServerProtocol._send_response:may-raise-after-write")
+M("C01", "drop-meta-sanitiser", "breaking",
+  [(P, SR, '        meta = meta.replace("\\r", " ").replace("\\n", " ")\n', "")],
+  "W3:server.protocol:GeminiServerProtocol._send_response:header")
+M("C01", "sanitise-only-lf", "breaking",
+  [(P, SR, 'meta.replace("\\r", " ").replace("\\n", " ")', 'meta.replace("\\n", " ")')],
+  "W3:server.protocol:GeminiServerProtocol._send_response:header")
+M("C01", "drop-meta-length-cap", "breaking",
+  [(P, SR, '        meta = meta.encode("utf-8", errors="replace")[:1024].decode(\n            "utf-8", errors="ignore"\n        )\n', "")],
+  "W3:server.protocol:GeminiServerProtocol._send_response:header")
+M("C01", "status-range-off", "breaking",
+  [(P, SR, "if not 10 <= status <= 69:", "if not 10 <= status <= 99:")],
+  "W3:server.protocol:GeminiServerProtocol._send_response:header")
+M("C01", "body-for-any-status", "breaking",
+  [(P, SR, "if is_success(status) and response.body:", "if response.body:")],
+  "W4:server.protocol:GeminiServerProtocol._send_response:body")
+M("C01", "timeout-literal-malformed", "breaking",
+  [(P, "GeminiServerProtocol._handle_timeout", '"40 Request timeout\\r\\n"', '"40  Request timeout\\n"')],
+  "W3:server.protocol:GeminiServerProtocol._handle_timeout:header")
+M("C01", "timeout-no-close", "breaking",
+  [(P, "GeminiServerProtocol._handle_timeout", "            self.transport.write(response.encode(\"utf-8\"))\n            self.transport.close()\n", "            self.transport.write(response.encode(\"utf-8\"))\n")],
+  "_handle_timeout")
+M("C01", "deny-empty-unanswered", "breaking",
+  [(P, "GeminiServerProtocol._handle_middleware_result",
+    "                    self._send_error_response(\n                        StatusCode.TEMPORARY_FAILURE, \"Request rejected\"\n                    )\n", "                    pass\n")],
+  "W5:server.protocol:GeminiServerProtocol._handle_middleware_result:orphan")
+M("C01", "callback-narrow-except", "breaking",
+  [(P, "GeminiServerProtocol._handle_async_handler_result", "        except Exception as e:", "        except ValueError as e:")],
+  "W6:server.protocol:GeminiServerProtocol._handle_async_handler_result:unfunnelled")
+M("C01", "rate-limit-header-malformed", "breaking",
+  [("server/middleware.py", "RateLimiter.process_request", 'f"44 Rate limit exceeded. Retry after {retry_after} seconds\\r\\n"', 'f"44 Rate limit exceeded.\\nRetry after {retry_after} seconds\\r\\n"')],
+  "W3:server.middleware:RateLimiter.process_request:reject-header")
+M("C01", "acl-header-no-crlf", "breaking",
+  [("server/middleware.py", "AccessControl.process_request", '"53 Access denied\\r\\n"', '"53 Access denied"')],
+  "W3:server.middleware:AccessControl.process_request:reject-header")
+M("C01", "latch-set-after-writes", "breaking",
+  [(P, "GeminiServerProtocol._handle_timeout", "            self.response_sent = True\n", "")],
+  "W5:")
+M("C01", "benign-regex-sanitiser", "benign",
+  [(P, SR, 'meta = meta.replace("\\r", " ").replace("\\n", " ")', 'meta = re.sub(r"[\\r\\n]+", " ", meta)'),
+   (P, None, "import asyncio\n", "import asyncio\nimport re\n")])
+M("C01", "benign-helper-sanitiser", "benign",
+  [(P, SR, 'meta = meta.replace("\\r", " ").replace("\\n", " ")', "meta = _one_line(meta)"),
+   (P, None, "logger = get_logger(__name__)\n", "logger = get_logger(__name__)\n\n\ndef _one_line(text: str) -> str:\n    return \" \".join(text.splitlines())\n")])
+M("C01", "benign-single-write", "benign",
+  [(P, SR, "        self.transport.write(header)\n        if body:\n            self.transport.write(body)\n", "        self.transport.write(header + body)\n")])
+M("C01", "benign-status-guard-lt70", "benign",
+  [(P, SR, "if not 10 <= status <= 69:", "if status < 10 or status >= 70:")])
